@@ -21,6 +21,12 @@ func NewObjectStorage(base, temporal storer.EncodedObjectStorer) *ObjectStorage 
 
 // SetEncodedObject honors the storer.EncodedObjectStorer interface.
 func (o *ObjectStorage) SetEncodedObject(obj plumbing.EncodedObject) (plumbing.Hash, error) {
+	// An object the base storage already holds needs no pending copy;
+	// keeping one would list it twice in IterEncodedObjects.
+	if h := obj.Hash(); o.EncodedObjectStorer.HasEncodedObject(h) == nil {
+		return h, nil
+	}
+
 	return o.temporal.SetEncodedObject(obj)
 }
 
